@@ -628,13 +628,6 @@ def classify_diff(a, b, stable, gtext):
 def main():
     chk = vlib.Check("C07")
     rng = chk.rng
-    # findings staged in known_findings.d are honoured as well (vlib only reads known_findings.json)
-    p = os.path.join(V, "known_findings.d", "C07.json")
-    if os.path.exists(p):
-        have = {f["key"] for f in chk.known}
-        for f in json.load(open(p)).get("findings", []):
-            if f.get("property") == "C07" and f.get("status", "open") == "open" and f["key"] not in have:
-                chk.known.append(f)
     # 1. translator
     rc, tout = vlib.sh("python3 %s/translate/tr_formats.py" % V)
     trans_problems = [l for l in tout.splitlines() if l.startswith("PROBLEM")]
